@@ -36,7 +36,11 @@ func (p *Program) newExec(unit string) *Exec {
 
 func (x *Exec) ghostInitial(g *GhostVar) Value {
 	if strings.HasPrefix(g.Type, "$") {
-		return Sc{T: x.vc.input("ghost."+g.Name, g.Type[1:])}
+		srt := g.Type[1:]
+		if a, ok := sortAliasTable[srt]; ok {
+			srt = a
+		}
+		return Sc{T: x.vc.input("ghost."+g.Name, srt)}
 	}
 	if obj := types.Universe.Lookup(g.Type); obj != nil {
 		if sort, signed, ok := scalarSort(obj.Type()); ok {
@@ -292,6 +296,9 @@ func (x *Exec) useLemma(fr *frame, st *State, ul UseLemma, opts *evalOpts) {
 
 func lemmaParamSort(x *Exec, typ string) (string, bool) {
 	if strings.HasPrefix(typ, "$") {
+		if a, ok := sortAliasTable[typ[1:]]; ok {
+			return a, false
+		}
 		return typ[1:], false
 	}
 	if obj := types.Universe.Lookup(typ); obj != nil {
